@@ -1,9 +1,10 @@
+\* Limit 3, two dispatching threads, five jobs (two of them panicking raw jobs)
 CONSTANTS
-  Limit = 2
-  Jobs = {"j1", "j2", "j3", "j4"}
+  Limit = 3
+  Jobs = {"j1", "j2", "j3", "j4", "j5"}
   Disp = {"D1", "D2"}
-  NW = 4
-  PanicJobs = {"j3"}
+  NW = 5
+  PanicJobs = {"j2", "j5"}
   Caught = FALSE
   DriverLoop = FALSE
   Fix = TRUE
